@@ -80,6 +80,12 @@ class Proxy:
         if hasattr(inner, "dataset"):
             self.dataset = inner.dataset
 
+    def __getattr__(self, name):
+        # everything else (effective_length, num_repeats, epoch, ...) is the real sampler's
+        if name.startswith("__") or name in ("_inner", "set_epoch"):
+            raise AttributeError(name)
+        return getattr(self._inner, name)
+
     def __len__(self):
         return len(self._inner)
 
@@ -100,9 +106,10 @@ class ProxyWithEpoch(Proxy):
 class FixedSampler:
     """side sampler: a fixed sequence of indices into a data source of length M"""
 
-    def __init__(self, M, order):
+    def __init__(self, M, order, order_fn=None):
         self.data_source = _Src(M)
         self.order = list(order)
+        self.order_fn = order_fn
         self.passes = 0
 
     def __len__(self):
@@ -110,6 +117,8 @@ class FixedSampler:
 
     def __iter__(self):
         self.passes += 1
+        if self.order_fn is not None:
+            return iter(self.order_fn(self.passes - 1))
         return iter(self.order)
 
 
@@ -184,7 +193,10 @@ def gen_configs(rng, g, multi_kind=True, max_cfg=4):
     return cfgs
 
 
-def side_order(c):
+def side_order(c, p=0):
+    """the p-th pass of a side sampler; "rotating" samplers (shuffling / re-drawing ones) yield another order on every pass"""
+    if c.get("rotating") and p > 0:
+        return random.Random(f"{c['order_seed']}/{p}").sample(range(c["M"]), c["n"])
     return random.Random(c["order_seed"]).sample(range(c["M"]), c["n"])
 
 
@@ -212,9 +224,12 @@ def model(g, budget, cfgs, draw, start=None):
         off += c["M"]
     events, epochs_log = [], []
 
+    passes = [0] * len(cfgs)
+
     def side_pass(ci):
         c = cfgs[ci]
-        order = side_order(c)
+        order = side_order(c, passes[ci])
+        passes[ci] += 1
         bs = c["batch_size"] or B
         for j, idx in enumerate(order):
             last = (j + 1) % bs == 0 or j + 1 == len(order)
@@ -301,7 +316,7 @@ def build_real(g, budget, cfgs, main_seed, main_kind="rec", start=None, collator
         main = RecMainNoEpoch(g["M"], g["N"], main_seed, pos)
     else:
         main = make_real_main(main_kind, g, main_seed, pos)
-    sides = [FixedSampler(c["M"], side_order(c)) for c in cfgs]
+    sides = [FixedSampler(c["M"], side_order(c), order_fn=(lambda p, c=c: side_order(c, p)) if c.get("rotating") else None) for c in cfgs]
     configs = [InterleavedSamplerConfig(sampler=s, every_n_epochs=c["every_n_epochs"], every_n_updates=c["every_n_updates"],
                                         every_n_samples=c["every_n_samples"], batch_size=c["batch_size"]) for s, c in zip(sides, cfgs)]
     kw = dict(main_sampler=main, batch_size=g["B"], configs=configs, drop_last=g["drop_last"], **budget)
@@ -342,6 +357,9 @@ def make_real_main(kind, g, seed, pos):
     if kind == "torch_dist2":
         import torch.utils.data.distributed as tdd
         return ProxyWithEpoch(tdd.DistributedSampler(ds, num_replicas=2, rank=seed % 2, shuffle=True, seed=seed), pos)
+    if kind == "kd_dist2":
+        # len() (= samples of this rank) differs from effective_length (= dataset size): the scheduler's epoch is len()
+        return ProxyWithEpoch(ks.DistributedSampler(ds, num_replicas=2, rank=seed % 2, shuffle=True, seed=seed, num_repeats=1 + (seed // 2) % 2), pos)
     raise ValueError(kind)
 
 
